@@ -23,6 +23,9 @@
 From Coq Require Import List Arith NArith ZArith.
 Import ListNotations.
 Require Import YF.Cbor YF.C11_Nodes YF.C11_Proofs YF.Generated.ConstsC11.
+(* the checker evaluated on the harness's case files (kept in this file's dependency closure so that it is rebuilt
+   together with the theorems whenever a generated constant changes) *)
+Require YF.C11_Check.
 
 (* ---------- what "conforming" means, in full ---------- *)
 Theorem C11_conforming_dataframe_means : forall (cid_len : list N -> option nat) (d : DataFrame),
